@@ -6,6 +6,7 @@ import (
 	"os"
 	"path/filepath"
 	"sort"
+	"time"
 
 	"verif/sim"
 )
@@ -41,6 +42,9 @@ type aggregate struct {
 	samples   []string
 	sampleN   int
 	distinct  map[string]map[string]struct{}
+	// the slowest completed run (wall clock, includes waiting for a CPU): how far runs stay from the watchdog
+	slowest    time.Duration
+	slowestRun int64
 }
 
 func newAggregate() *aggregate {
@@ -93,6 +97,9 @@ func writeEvidence(prop string, cfg *propCfg, tier string, seed int64, a *aggreg
 		"workers":             workers,
 		"components_real":     cfg.Real,
 		"components_stub":     cfg.Stub,
+		"slowest_run_s":       float64(a.slowest.Milliseconds()) / 1000,
+		"slowest_run_index":   a.slowestRun,
+		"per_run_watchdog_s":  cfg.TimeoutS,
 	}
 	if len(a.invalidBy) > 0 {
 		cov["invalid_by_reason"] = a.invalidBy
